@@ -53,6 +53,12 @@ CHECKS = {
    text="Every valid shipped source at 8 widths x 4 indents (exhaustive), thousands of layout/comment mutants and synthetic programs are formatted; the output must parse, have the same structural AST fingerprint, the same comment sequence, and be a fixed point. Seventeen formatter defects found this way are recorded; cases attributed to them by a token-level repair are discarded and counted, anything else is a violation.",
    note="AST equality is a harness-side structural fingerprint of the lowered Program (spans ignored). Idempotence cannot be judged behind a structural defect (the first output does not parse).",
    design="2.C14"),
+ "C02": dict(
+   category="exploration",
+   technique="model-based differential testing: generated core-fragment programs run on the VM vs an independent reference interpreter written from the property statement (calibrated on repository fixtures)",
+   text="Tens of thousands (quick) / ~10^6 (thorough) of generated programs of the fragment whose meaning the statement fixes are evaluated by a harness-side reference interpreter (shared cells, left-to-right call-by-value, state tree keyed by textual call site, self/mem/delay by definition) and by the VM; every output word must agree bitwise. The reference and the renderer are calibrated against 8 repository fixtures and their authors' expected vectors on every run.",
+   note="The reference interpreter is the trusted base. The fragment excludes constructs the statement does not fix and the shapes of two VM findings found by this check (pinned with expected values). Only the VM is compared here; WASM is tied in by C01.",
+   design="2.C02"),
 }
 
 NOT_YET = {
